@@ -1,62 +1,112 @@
 ---------------------------------- MODULE Mempool ----------------------------------
 (* C19 - gemmill/mempool/mempool.go: the plain FIFO pool used when the application does    *)
-(* not bring its own (types.TxPoolApplication).  One action per public call:               *)
-(*   Receive(x, r)   ReceiveTx: dedup cache, size limit, push back                          *)
-(*   Reap(n)         first n transactions in arrival order (no state change)                *)
-(*   Update(B)       refreshMempoolTxs: drop the block's transactions                       *)
-(*   Flush                                                                                  *)
+(* not bring its own (types.TxPoolApplication).  ReceiveTx takes NO pool lock for its      *)
+(* checks: RPC handlers and peer reactors call it concurrently, so it is modelled with its  *)
+(* real atomic steps and several submitter processes:                                       *)
+(*   RcvCheck(p, x, r)  cache.Exists(tx) [cache mutex] ; txs.Len() > txLimit                *)
+(*                      ... filters, WAL (no shared state; the replay parks p here) ...      *)
+(*   RcvPush(p, r)      cache.Push(tx) [cache mutex]: refused when somebody pushed it since  *)
+(*   RcvAppend(p)       txs.PushBack                                                         *)
+(*   UpdCache(B)        Update: cache.Push of the block's transactions                       *)
+(*   UpdRefresh         Update: refreshMempoolTxs under the pool lock                        *)
+(*   Reap(n), Flush     under the pool lock                                                  *)
+(* AtomicAppend = TRUE is the code after the repair: Push and PushBack happen under the     *)
+(* pool lock, i.e. RcvPush does both and RcvAppend does not exist.                           *)
 EXTENDS Integers, Sequences, FiniteSets, TLC
 
 CONSTANTS
   Txs,               \* transaction names
+  Subm,              \* submitter processes (goroutines calling ReceiveTx)
   Limit,             \* txLimit = block_size * 2; ReceiveTx refuses when Len(txs) > Limit (sic: strictly greater)
   MaxBlk,
+  PushChecked,       \* TRUE: `if !mem.cache.Push(tx) { return ErrTxInCache }` (the code); FALSE: result ignored
+  AtomicAppend,      \* TRUE: cache.Push + txs.PushBack under the pool lock (code after the repair)
   KeepCommittedInCache  \* TRUE: Update records the block's transactions in the dedup cache and they stay there
                         \* (code after the repair); FALSE: committed transactions are REMOVED from the cache
 
-VARIABLES txs, cache, committed, resub, flushed, res
-vars == <<txs, cache, committed, resub, flushed, res>>
-view == <<txs, cache, committed, resub, flushed>>
+VARIABLES txs, cache, pc, cur, upd, committed, forgot, res
+\* committed: ghost, every tx a committed block contained; forgot: ghost, the committed txs an explicit Flush
+\* ("remove all transactions from mempool and cache") made the pool forget since they were last committed
+vars == <<txs, cache, pc, cur, upd, committed, forgot, res>>
+view == <<txs, cache, pc, cur, upd, committed, forgot>>
 
 SeqSet(s) == {s[i] : i \in 1..Len(s)}
-Init == txs = <<>> /\ cache = {} /\ committed = {} /\ resub = {} /\ flushed = FALSE /\ res = [op |-> "init"]
+NoTx == "-"
+NoUpd == [on |-> FALSE, B |-> {}]
+Init == /\ txs = <<>> /\ cache = {} /\ committed = {} /\ forgot = {}
+        /\ pc = [p \in Subm |-> "idle"] /\ cur = [p \in Subm |-> NoTx] /\ upd = NoUpd
+        /\ res = [op |-> "init"]
 
-Receive(x, r) ==
-  /\ r = IF x \in cache THEN "exist" ELSE IF Len(txs) > Limit THEN "full" ELSE "ok"
-  /\ IF r = "ok" THEN /\ txs' = Append(txs, x) /\ cache' = cache \cup {x}
-                      /\ resub' = IF x \in committed THEN resub \cup {x} ELSE resub
-     ELSE UNCHANGED <<txs, cache, resub>>
-  /\ res' = [op |-> "Receive", x |-> x, r |-> r]
-  /\ UNCHANGED <<committed, flushed>>
+RcvCheck(p, x, r) ==
+  /\ pc[p] = "idle"
+  /\ r = IF x \in cache THEN "exist" ELSE IF Len(txs) > Limit THEN "full" ELSE "pass"
+  /\ IF r = "pass" THEN /\ pc' = [pc EXCEPT ![p] = "push"] /\ cur' = [cur EXCEPT ![p] = x]
+     ELSE UNCHANGED <<pc, cur>>
+  /\ res' = [op |-> "RcvCheck", p |-> p, x |-> x, r |-> r]
+  /\ UNCHANGED <<txs, cache, upd, committed, forgot>>
 
-Reap(n) == /\ res' = [op |-> "Reap", n |-> n] /\ UNCHANGED <<txs, cache, committed, resub, flushed>>
+RcvPush(p, r) ==
+  /\ pc[p] = "push"
+  /\ r = IF cur[p] \in cache /\ PushChecked THEN "exist" ELSE "ok"
+  /\ IF r = "exist" THEN /\ pc' = [pc EXCEPT ![p] = "idle"] /\ cur' = [cur EXCEPT ![p] = NoTx]
+                         /\ UNCHANGED <<txs, cache>>
+     ELSE /\ cache' = cache \cup {cur[p]}
+          /\ IF AtomicAppend
+               THEN /\ txs' = Append(txs, cur[p])
+                    /\ pc' = [pc EXCEPT ![p] = "idle"] /\ cur' = [cur EXCEPT ![p] = NoTx]
+               ELSE /\ pc' = [pc EXCEPT ![p] = "append"] /\ UNCHANGED <<txs, cur>>
+  /\ res' = [op |-> "RcvPush", p |-> p, r |-> r]
+  /\ UNCHANGED <<upd, committed, forgot>>
 
-Update(B) ==
-  /\ Cardinality(B) <= MaxBlk
-  /\ txs' = SelectSeq(txs, LAMBDA x : x \notin B)
-  /\ cache' = IF KeepCommittedInCache THEN cache \cup B ELSE cache \ (B \cap SeqSet(txs))
+RcvAppend(p) ==
+  /\ pc[p] = "append"
+  /\ txs' = Append(txs, cur[p])
+  /\ pc' = [pc EXCEPT ![p] = "idle"] /\ cur' = [cur EXCEPT ![p] = NoTx]
+  /\ res' = [op |-> "RcvAppend", p |-> p]
+  /\ UNCHANGED <<cache, upd, committed, forgot>>
+
+Reap(n) == /\ res' = [op |-> "Reap", n |-> n] /\ UNCHANGED <<txs, cache, pc, cur, upd, committed, forgot>>
+
+UpdCache(B) ==
+  /\ ~upd.on
+  /\ upd' = [on |-> TRUE, B |-> B]
+  /\ cache' = IF KeepCommittedInCache THEN cache \cup B ELSE cache
   /\ committed' = committed \cup B
-  /\ resub' = resub \ B
-  /\ res' = [op |-> "Update", B |-> B]
-  /\ UNCHANGED flushed
+  /\ forgot' = forgot \ B
+  /\ res' = [op |-> "UpdCache", B |-> B]
+  /\ UNCHANGED <<txs, pc, cur>>
 
-Flush == /\ txs' = <<>> /\ cache' = {} /\ flushed' = TRUE /\ res' = [op |-> "Flush"] /\ UNCHANGED <<committed, resub>>
+UpdRefresh ==
+  /\ upd.on
+  /\ txs' = SelectSeq(txs, LAMBDA x : x \notin upd.B)
+  /\ cache' = IF KeepCommittedInCache THEN cache ELSE cache \ (upd.B \cap SeqSet(txs))
+  /\ upd' = NoUpd
+  /\ res' = [op |-> "UpdRefresh"]
+  /\ UNCHANGED <<pc, cur, committed, forgot>>
+
+Flush == /\ txs' = <<>> /\ cache' = {} /\ forgot' = committed /\ res' = [op |-> "Flush"]
+         /\ UNCHANGED <<pc, cur, upd, committed>>
 
 Blocks == {B \in SUBSET Txs : Cardinality(B) <= MaxBlk}
-Next == \/ \E x \in Txs, r \in {"ok", "exist", "full"} : Receive(x, r)
+Next == \/ \E p \in Subm, x \in Txs, r \in {"pass", "exist", "full"} : RcvCheck(p, x, r)
+        \/ \E p \in Subm, r \in {"ok", "exist"} : RcvPush(p, r)
+        \/ \E p \in Subm : RcvAppend(p)
         \/ \E n \in {1, 2, -1} : Reap(n)
-        \/ \E B \in Blocks : Update(B)
+        \/ \E B \in Blocks : UpdCache(B)
+        \/ UpdRefresh
         \/ Flush
 Spec == Init /\ [][Next]_vars
 
 (* Properties *)
+Quiet == (\A p \in Subm : pc[p] = "idle") /\ ~upd.on
+\* no transaction is queued twice, in every interleaving of concurrent submitters
 NoDuplicates == Cardinality(SeqSet(txs)) = Len(txs)
+\* what is queued is known to the dedup cache (else an exact duplicate would be accepted)
 HeldIsCached == SeqSet(txs) \subseteq cache
-WithinBounds == Len(txs) <= Limit + 1
-RejectsDuplicates == [][ (res'.op = "Receive" /\ res'.x \in SeqSet(txs)) => res'.r = "exist" ]_vars
-\* a committed transaction is never offered again (Flush empties the cache on purpose: excluded via resub)
-NoReofferCommitted == SeqSet(txs) \cap (committed \ resub) = {}
-NoReofferStrict == SeqSet(txs) \cap committed = {}
-\* with the cache keeping committed transactions only an explicit Flush (operator RPC) makes the pool forget them
-ResubOnlyAfterFlush == resub # {} => flushed
+\* every submitter in flight may overshoot the limit by one (the limit is read before the append, without a lock)
+WithinBounds == Len(txs) <= Limit + Cardinality(Subm)
+RejectsDuplicates == [][ (res'.op = "RcvCheck" /\ res'.x \in SeqSet(txs)) => res'.r = "exist" ]_vars
+\* a transaction a committed block contained is never offered again, unless an explicit Flush made the pool forget it
+\* in between - checked when no Update is half-way
+NoReofferCommitted == ~upd.on => SeqSet(txs) \cap (committed \ forgot) = {}
 ===================================================================================
